@@ -5,7 +5,7 @@
    correspondence run (DESIGN section 5, C09). *)
 From Coq Require Import ZArith List Lia Bool.
 Import ListNotations.
-From LX Require Import Generated.Tables Model.Crc Proofs.CrcProofs Proofs.CrcBurstProofs Model.CrcBE Proofs.CrcBEProofs.
+From LX Require Import Generated.Tables Model.Crc Proofs.CrcProofs Proofs.CrcBurstProofs Model.CrcBE Proofs.CrcBEProofs Proofs.CrcBEBurstProofs.
 Local Open Scope Z_scope.
 
 (* the tables in crc32.c are the tables of the two polynomials (a corrupted entry breaks this) *)
@@ -78,3 +78,16 @@ Example c09_bzip2_nonvacuous :
   bz_gate [[1;2;3]; [4]] (map bz_block_crc [[1;2;3]; [4]]) (bz_stream_crc [[1;2;3]; [4]]) = true /\
   bz_gate [[1;2;7]; [4]] (map bz_block_crc [[1;2;3]; [4]]) (bz_stream_crc [[1;2;3]; [4]]) = false.
 Proof. vm_compute. repeat split; reflexivity. Qed.
+
+(* bzip2's big-endian CRC: any change confined to two adjacent bytes of a block of any length changes the block CRC, and the
+   per-block / stream gate then refuses the stream *)
+Theorem bzip2_crc_detects_two_adjacent_bytes : forall before pre b1 b2 c1 c2 post after stored,
+  Forall CrcBEProofs.byte pre -> CrcBEProofs.byte b1 -> CrcBEProofs.byte b2 -> CrcBEProofs.byte c1 -> CrcBEProofs.byte c2 ->
+  Forall CrcBEProofs.byte post -> (b1 <> c1 \/ b2 <> c2) ->
+  bz_block_crc (pre ++ b1 :: b2 :: post) <> bz_block_crc (pre ++ c1 :: c2 :: post) /\
+  bz_gate (before ++ (pre ++ c1 :: c2 :: post) :: after) (map bz_block_crc (before ++ (pre ++ b1 :: b2 :: post) :: after)) stored = false.
+Proof.
+  intros. split; [apply bz_block_crc_detects_two_bytes | apply bz_gate_rejects_two_byte_substitution]; assumption.
+Qed.
+Print Assumptions bzip2_crc_detects_two_adjacent_bytes.
+
